@@ -178,6 +178,24 @@ pub fn run(p: &Params, rep: &mut Report) {
         rep.eval(Some(&format!("t{}", t.chars().map(|c| format!("{:x}", c as u32)).collect::<Vec<_>>().join(","))));
         rep.sample(|| format!("rust string with code points {:x?}", t.chars().map(|c| c as u32).collect::<Vec<_>>()));
     }
+    // structured escape attempts (pairs of fragments): whatever the parser makes of them must be a good string
+    {
+        let (valid, malformed) = super::c08::escape_fragments();
+        let mut frags: Vec<&String> = valid.iter().collect();
+        frags.extend(malformed.iter());
+        let mut k = 0u64;
+        for a in &frags {
+            for b in &frags {
+                k += 1;
+                if k % p.nshards != p.shard {
+                    continue;
+                }
+                let t = format!("{}{}", a, b);
+                check_rust_string(rep, &mut m, &t, seed);
+                rep.eval(Some(&format!("f{}", t)));
+            }
+        }
+    }
     // literal escapes that spell out-of-range values
     if p.shard == 0 {
         for t in ["\\u{30000}", "\\u{2FFFF}", "\\u{FFFFF}", "\\u{3ffff}", "\\uFFFF", "\\u{0}", "\\u{110000}"] {
